@@ -817,6 +817,7 @@ func Run(ctx *core.Ctx) {
 	type job func()
 	var jobs []job
 	jobs = append(jobs, func() { getAreaHook(ctx, bin) })
+	jobs = append(jobs, func() { getAreaDuringShrink(ctx, bin) })
 	for i := 0; i < ctx.Pick(8, 60); i++ {
 		i := i
 		jobs = append(jobs, func() { sequential(ctx, bin, i) })
@@ -975,5 +976,120 @@ func getAreaHook(ctx *core.Ctx, bin string) {
 			}
 			ctx.Violation("shrink-loses-get-area-channel:"+n, fmt.Sprintf("channel %s (`WITHIN gfleet FENCE GET areas ...`, the referenced object %s) is served before and after AOFSHRINK and is gone after a restart on the shrunk log", n, what), map[string]any{"channel": n})
 		}
+	}
+}
+
+// getAreaDuringShrink: a channel over `GET key id` is created while the rewrite
+// is parked before it has scanned the collection that holds the area object,
+// and the area object is replaced right afterwards (all acknowledged during the
+// rewrite). Live, the channel fences the object as it was when SETCHAN ran;
+// after a restart on the rewritten log it must fence the same area.
+func getAreaDuringShrink(ctx *core.Ctx, bin string) {
+	env := "T38_VERIF_POINTS=shrink.betweenKeyBatches=gate;shrink.betweenIdBatches=gate;shrink.beforeFinal=gate;shrink.afterRemoveBak=yield:1"
+	s, c, err := startWith(bin, []string{env})
+	if err != nil {
+		ctx.Inconclusive(err.Error())
+		return
+	}
+	defer func() { s.Kill9() }()
+	defer c.Close()
+	for k := 0; k < 12; k++ {
+		c.Do("SET", fmt.Sprintf("a%02d", k), "o", "POINT", "1", strconv.Itoa(k))
+	}
+	c.Do("SET", "zzz", "area", "OBJECT", `{"type":"Polygon","coordinates":[[[0,0],[10,0],[10,10],[0,10],[0,0]]]}`)
+	c.Do("SET", "gfl", "seed", "POINT", "80", "80")
+	if r, err := c.Do("AOFSHRINK"); err != nil || r.IsErr() {
+		ctx.Inconclusive("get-area during shrink: AOFSHRINK failed")
+		return
+	}
+	created := false
+	deadline := time.Now().Add(60 * time.Second)
+	for time.Now().Before(deadline) {
+		st, err := pointStatus(c)
+		if err != nil {
+			ctx.Inconclusive("get-area during shrink: " + err.Error())
+			return
+		}
+		if st["shrink.afterRemoveBak"].arrivals > 0 {
+			break
+		}
+		at := ""
+		for _, p := range []string{"shrink.betweenKeyBatches", "shrink.betweenIdBatches", "shrink.beforeFinal"} {
+			if st[p].parked > 0 {
+				at = p
+			}
+		}
+		if at == "" {
+			time.Sleep(time.Millisecond)
+			continue
+		}
+		if !created {
+			// first stop: eight keys are scanned, zzz is not
+			r1, e1 := c.Do("SETCHAN", "cduring", "WITHIN", "gfl", "FENCE", "DETECT", "enter", "GET", "zzz", "area")
+			r2, e2 := c.Do("SET", "zzz", "area", "OBJECT", `{"type":"Polygon","coordinates":[[[50,50],[60,50],[60,60],[50,60],[50,50]]]}`)
+			if e1 != nil || e2 != nil || r1.IsErr() || r2.IsErr() {
+				ctx.Inconclusive("get-area during shrink: writes during the rewrite were refused")
+				return
+			}
+			created = true
+		}
+		c.Do("VERIF", "RELEASE", at, "1")
+	}
+	if !created {
+		ctx.Inconclusive("get-area during shrink: the rewrite never parked")
+		return
+	}
+	if err := waitShrinkDone(c, 0, 60*time.Second); err != nil {
+		ctx.Inconclusive(err.Error())
+		return
+	}
+	events := func(addr string, tag string) (string, bool) {
+		sub, err := respc.Dial(addr, 5*time.Second)
+		if err != nil {
+			return "", false
+		}
+		defer sub.Close()
+		sub.Send("SUBSCRIBE", "cduring")
+		sub.RecvTimeout(5 * time.Second)
+		w, err := respc.Dial(addr, 5*time.Second)
+		if err != nil {
+			return "", false
+		}
+		defer w.Close()
+		w.Do("SET", "gfl", "in-old-"+tag, "POINT", "5", "5")
+		w.Do("SET", "gfl", "in-new-"+tag, "POINT", "55", "55")
+		var ids []string
+		for {
+			rp, err := sub.RecvTimeout(1200 * time.Millisecond)
+			if err != nil {
+				break
+			}
+			if rp.Kind == '*' && len(rp.Arr) == 3 {
+				if i := strings.Index(rp.Arr[2].Str, `"id":"`); i >= 0 {
+					id := rp.Arr[2].Str[i+6:]
+					ids = append(ids, id[:strings.IndexByte(id, '"')])
+				}
+			}
+		}
+		return strings.Join(ids, ","), true
+	}
+	live, ok1 := events(s.Addr(), "live")
+	c.Close()
+	s.Term(20 * time.Second)
+	s2, err := s.Restart()
+	if err != nil {
+		ctx.Violation("restart-fails-after-shrink", "server does not start on the log rewritten while a GET-area channel was created: "+err.Error(), nil)
+		return
+	}
+	defer s2.Kill9()
+	after, ok2 := events(s2.Addr(), "restarted")
+	if !ok1 || !ok2 {
+		ctx.Inconclusive("get-area during shrink: subscriber connection")
+		return
+	}
+	ctx.Eval(1)
+	ctx.Distinct("gated|get-area-channel-during-shrink")
+	if live != "in-old-live" || after != "in-old-restarted" {
+		ctx.Violation("shrink-changes-get-area-fence:created-during-shrink", fmt.Sprintf("`SETCHAN cduring WITHIN gfl FENCE DETECT enter GET zzz area` (area = square 0..10) and then `SET zzz area <square 50..60>`, both acknowledged while AOFSHRINK was parked before scanning zzz: a SET at 5,5 and one at 55,55 notify for [%s] on the running server and for [%s] after a restart on the rewritten log; expected the point at 5,5 both times", live, after), map[string]any{"live": live, "after_restart": after})
 	}
 }
